@@ -1,4 +1,858 @@
-//! placeholder — written by the builder of the `rwa_regs` half
+//! C20, RWA half — claim topics / trusted issuers, claim-issuer signing keys, token binder,
+//! documents, identity registry storage, identity claims.
+//!
+//! Each registry is its own small BFS world over a thin wrapper contract (bodies = single calls
+//! into the library, no operator checks). The reference models are plain `BTreeSet`/`BTreeMap`s
+//! written from the property statement and the doc comments of the library functions; after
+//! every accepted operation EVERY getter is compared with the model (enumerations as sets, no
+//! element twice, index-based access hits every element exactly once, one-past-the-end refused).
+//! Acceptance is predicted from the documented preconditions: duplicates and absent removals
+//! refused, documented capacity constants enforced exactly (seeds at limit-1).
+#![allow(clippy::type_complexity)]
+
+use soroban_sdk::testutils::{Address as _, Ledger as _};
+use soroban_sdk::{Address, Bytes, BytesN, Env, IntoVal, Map as SMap, String as SString, TryFromVal, Val, Vec as SVec};
+use std::collections::{BTreeMap, BTreeSet};
+use std::fmt::Debug;
+use vh::auth::{call_mocked, view};
 use vh::cli::Runner;
+use vh::engine::{dig, Bounds, StepCtx, Violation, World};
+use vh::ensure;
+use vh::envx;
 use vh::report::Tier;
-pub fn run(_tier: Tier, _r: &mut Runner) {}
+
+#[path = "../../shared/c20_rwa_wrap.rs"]
+mod wrap;
+
+const START: u32 = 1000;
+
+// ------------------------------------------------------------------------------------------
+// common helpers
+
+/// Predicted outcome of an operation: `Some(true)` must be accepted, `Some(false)` must be
+/// refused, `None` = the documentation leaves it open (the implementation's answer is followed).
+struct Ex {
+    ok: Option<bool>,
+    oracle: &'static str,
+    why: String,
+}
+
+fn must(ok: bool, oracle: &'static str, why: impl Into<String>) -> Ex {
+    Ex { ok: Some(ok), oracle, why: why.into() }
+}
+
+fn open() -> Ex {
+    Ex { ok: None, oracle: "", why: String::new() }
+}
+
+fn check_outcome(ok: bool, x: &Ex, op: &dyn Debug) -> Result<(), Violation> {
+    if let Some(want) = x.ok {
+        ensure!(ok == want, x.oracle, "{:?} was {} although {}", op, if ok { "accepted" } else { "refused" }, x.why);
+    }
+    Ok(())
+}
+
+/// Oracle name of an accepted addition: the last admissible one before a capacity constant is
+/// reported under `limit-exact`.
+fn add_oracle(count_before: usize, limit: usize) -> &'static str {
+    if count_before + 1 >= limit {
+        "limit-exact"
+    } else {
+        "valid-op-accepted"
+    }
+}
+
+/// Getter call: `Some(decoded)` when it answered, `None` when it refused (any failure).
+fn getv<T: TryFromVal<Env, Val>>(e: &Env, c: &Address, f: &str, args: SVec<Val>) -> Option<T> {
+    match view(e, c, f, args) {
+        Ok(v) => match T::try_from_val(e, &v) {
+            Ok(t) => Some(t),
+            Err(_) => panic!("cannot decode the result of {f}"),
+        },
+        Err(_) => None,
+    }
+}
+
+fn no_args(e: &Env) -> SVec<Val> {
+    SVec::new(e)
+}
+
+/// An enumeration as a set; an element listed twice is a violation.
+fn as_set<T: Ord + Clone + Debug>(it: impl IntoIterator<Item = T>, what: &str) -> Result<BTreeSet<T>, Violation> {
+    let mut s = BTreeSet::new();
+    for x in it {
+        ensure!(s.insert(x.clone()), "enumeration-no-duplicates", "{} lists {:?} twice", what, x);
+    }
+    Ok(s)
+}
+
+/// Address book: small ids <-> addresses.
+struct Book {
+    fwd: BTreeMap<u16, Address>,
+}
+
+impl Book {
+    fn new() -> Self {
+        Self { fwd: BTreeMap::new() }
+    }
+    fn gen(&mut self, e: &Env, id: u16) {
+        self.fwd.insert(id, Address::generate(e));
+    }
+    fn a(&self, id: u16) -> Address {
+        self.fwd.get(&id).unwrap_or_else(|| panic!("no address for id {id}")).clone()
+    }
+    fn id(&self, a: &Address, what: &str) -> Result<u16, Violation> {
+        for (k, v) in &self.fwd {
+            if v == a {
+                return Ok(*k);
+            }
+        }
+        Err(Violation::new("outside-universe", format!("{what} contains an address that was never used")))
+    }
+    fn ids(&self, v: &SVec<Address>, what: &str) -> Result<Vec<u16>, Violation> {
+        let mut out = vec![];
+        for a in v.iter() {
+            out.push(self.id(&a, what)?);
+        }
+        Ok(out)
+    }
+}
+
+fn seed_call(e: &Env, c: &Address, f: &str, args: SVec<Val>) {
+    if let Err(x) = call_mocked(e, c, f, args) {
+        panic!("seed construction: {f} failed: {x:?}");
+    }
+}
+
+// ==========================================================================================
+// (1) claim topics and trusted issuers
+
+const MAX_TOPICS: usize = 15;
+const MAX_ISSUERS: usize = 50;
+
+#[derive(Clone, Debug, PartialEq, Eq)]
+enum CtiOp {
+    AddTopic(u32),
+    RemoveTopic(u32),
+    AddIssuer(u16, Vec<u32>),
+    RemoveIssuer(u16),
+    Update(u16, Vec<u32>),
+}
+
+#[derive(Clone, Debug, Default, Hash)]
+struct CtiModel {
+    topics: BTreeSet<u32>,
+    issuers: BTreeMap<u16, BTreeSet<u32>>,
+}
+
+#[derive(Clone, Copy, Debug, PartialEq)]
+enum CtiSeed {
+    Empty,
+    /// 14 filler topics 100..113
+    Topics14,
+    /// topic 100 and 49 filler issuers 100..148, each with topic list [100]
+    Issuers49,
+}
+
+struct Cti {
+    name: &'static str,
+    seeds: Vec<CtiSeed>,
+    topics: Vec<u32>,
+    issuers: Vec<u16>,
+    lists: Vec<Vec<u32>>,
+    /// filler items that also get remove operations / per-item probes
+    probe_topics: Vec<u32>,
+    probe_issuers: Vec<u16>,
+}
+
+struct CtiInst {
+    e: Env,
+    c: Address,
+    book: Book,
+}
+
+impl Cti {
+    fn call(&self, i: &CtiInst, op: &CtiOp) -> bool {
+        let e = &i.e;
+        let (f, args): (&str, SVec<Val>) = match op {
+            CtiOp::AddTopic(t) => ("add_claim_topic", (*t,).into_val(e)),
+            CtiOp::RemoveTopic(t) => ("remove_claim_topic", (*t,).into_val(e)),
+            CtiOp::AddIssuer(x, l) => ("add_trusted_issuer", (i.book.a(*x), SVec::from_slice(e, l)).into_val(e)),
+            CtiOp::RemoveIssuer(x) => ("remove_trusted_issuer", (i.book.a(*x),).into_val(e)),
+            CtiOp::Update(x, l) => ("update_issuer_claim_topics", (i.book.a(*x), SVec::from_slice(e, l)).into_val(e)),
+        };
+        call_mocked(e, &i.c, f, args).is_ok()
+    }
+
+    fn list_problem(m: &CtiModel, l: &[u32]) -> Option<String> {
+        if l.is_empty() {
+            return Some("the topic list is empty".into());
+        }
+        let mut s = BTreeSet::new();
+        for t in l {
+            if !s.insert(*t) {
+                return Some(format!("the topic list names {t} twice"));
+            }
+        }
+        for t in l {
+            if !m.topics.contains(t) {
+                return Some(format!("topic {t} of the list is not a registered claim topic"));
+            }
+        }
+        None
+    }
+
+    fn expect(&self, m: &CtiModel, op: &CtiOp) -> Ex {
+        match op {
+            CtiOp::AddTopic(t) => {
+                if m.topics.contains(t) {
+                    must(false, "duplicate-refused", format!("topic {t} is already registered"))
+                } else if m.topics.len() >= MAX_TOPICS {
+                    must(false, "limit-exact", format!("{} topics are registered and the documented maximum is {MAX_TOPICS}", m.topics.len()))
+                } else {
+                    must(
+                        true,
+                        add_oracle(m.topics.len(), MAX_TOPICS),
+                        format!("topic {t} is new and only {} of at most {MAX_TOPICS} topics are registered", m.topics.len()),
+                    )
+                }
+            }
+            CtiOp::RemoveTopic(t) => {
+                if m.topics.contains(t) {
+                    must(true, "valid-op-accepted", format!("topic {t} is registered"))
+                } else {
+                    must(false, "absent-removal-refused", format!("topic {t} is not registered"))
+                }
+            }
+            CtiOp::AddIssuer(x, l) => {
+                if let Some(p) = Self::list_problem(m, l) {
+                    must(false, "invalid-input-refused", p)
+                } else if m.issuers.contains_key(x) {
+                    must(false, "duplicate-refused", format!("issuer {x} is already trusted"))
+                } else if m.issuers.len() >= MAX_ISSUERS {
+                    must(false, "limit-exact", format!("{} issuers are registered and the documented maximum is {MAX_ISSUERS}", m.issuers.len()))
+                } else {
+                    must(
+                        true,
+                        add_oracle(m.issuers.len(), MAX_ISSUERS),
+                        format!("issuer {x} is new, its topics exist and only {} of at most {MAX_ISSUERS} issuers are registered", m.issuers.len()),
+                    )
+                }
+            }
+            CtiOp::RemoveIssuer(x) => {
+                if m.issuers.contains_key(x) {
+                    must(true, "valid-op-accepted", format!("issuer {x} is trusted"))
+                } else {
+                    must(false, "absent-removal-refused", format!("issuer {x} is not trusted"))
+                }
+            }
+            CtiOp::Update(x, l) => {
+                if let Some(p) = Self::list_problem(m, l) {
+                    must(false, "invalid-input-refused", p)
+                } else if !m.issuers.contains_key(x) {
+                    must(false, "absent-removal-refused", format!("issuer {x} is not trusted"))
+                } else {
+                    must(true, "valid-op-accepted", format!("issuer {x} is trusted and every topic of the list exists"))
+                }
+            }
+        }
+    }
+
+    fn update(m: &mut CtiModel, op: &CtiOp) {
+        match op {
+            CtiOp::AddTopic(t) => {
+                m.topics.insert(*t);
+            }
+            CtiOp::RemoveTopic(t) => {
+                m.topics.remove(t);
+                for s in m.issuers.values_mut() {
+                    s.remove(t);
+                }
+            }
+            CtiOp::AddIssuer(x, l) | CtiOp::Update(x, l) => {
+                m.issuers.insert(*x, l.iter().copied().collect());
+            }
+            CtiOp::RemoveIssuer(x) => {
+                m.issuers.remove(x);
+            }
+        }
+    }
+
+    fn observe(&self, i: &CtiInst, m: &CtiModel, cx: &mut StepCtx<Self>) -> Result<(), Violation> {
+        let e = &i.e;
+        let mut n = 0u64;
+        // topics
+        let t: SVec<u32> = getv(e, &i.c, "get_claim_topics", no_args(e)).ok_or_else(|| Violation::new("getter", "get_claim_topics failed".into()))?;
+        let ts = as_set(t.iter(), "get_claim_topics")?;
+        ensure!(ts == m.topics, "topics", "get_claim_topics = {:?}, model {:?}", ts, m.topics);
+        // issuers
+        let v: SVec<Address> = getv(e, &i.c, "get_trusted_issuers", no_args(e)).ok_or_else(|| Violation::new("getter", "get_trusted_issuers failed".into()))?;
+        let is = as_set(i.book.ids(&v, "get_trusted_issuers")?, "get_trusted_issuers")?;
+        let want: BTreeSet<u16> = m.issuers.keys().copied().collect();
+        ensure!(is == want, "issuers", "get_trusted_issuers = {:?}, model {:?}", is, want);
+        n += 2;
+        let issuers_of = |t: u32| -> BTreeSet<u16> { m.issuers.iter().filter(|(_, s)| s.contains(&t)).map(|(k, _)| *k).collect() };
+        // topic -> issuers
+        let mut probe_t: Vec<u32> = self.topics.clone();
+        probe_t.extend(self.probe_topics.iter().copied());
+        probe_t.push(77);
+        for t in &probe_t {
+            let r: Option<SVec<Address>> = getv(e, &i.c, "get_claim_topic_issuers", (*t,).into_val(e));
+            n += 1;
+            match r {
+                Some(v) => {
+                    ensure!(m.topics.contains(t), "topic-issuers", "get_claim_topic_issuers({}) answered although the topic is not registered", t);
+                    let s = as_set(i.book.ids(&v, "get_claim_topic_issuers")?, "get_claim_topic_issuers")?;
+                    ensure!(s == issuers_of(*t), "topic-issuers", "get_claim_topic_issuers({}) = {:?}, model {:?}", t, s, issuers_of(*t));
+                }
+                None => ensure!(!m.topics.contains(t), "topic-issuers", "get_claim_topic_issuers({}) refused although the topic is registered", t),
+            }
+        }
+        // whole map
+        let mp: SMap<u32, SVec<Address>> =
+            getv(e, &i.c, "get_claim_topics_and_issuers", no_args(e)).ok_or_else(|| Violation::new("getter", "get_claim_topics_and_issuers failed".into()))?;
+        n += 1;
+        let mut got: BTreeMap<u32, BTreeSet<u16>> = BTreeMap::new();
+        for (t, v) in mp.iter() {
+            got.insert(t, as_set(i.book.ids(&v, "get_claim_topics_and_issuers")?, "get_claim_topics_and_issuers")?);
+        }
+        let want: BTreeMap<u32, BTreeSet<u16>> = m.topics.iter().map(|t| (*t, issuers_of(*t))).collect();
+        ensure!(got == want, "topics-and-issuers", "get_claim_topics_and_issuers = {:?}, model {:?}", got, want);
+        // issuer -> topics, membership both ways
+        let mut probe_i: Vec<u16> = self.issuers.clone();
+        probe_i.extend(self.probe_issuers.iter().copied());
+        for x in &probe_i {
+            let a = i.book.a(*x);
+            let r: Option<SVec<u32>> = getv(e, &i.c, "get_trusted_issuer_claim_topics", (a.clone(),).into_val(e));
+            match (&r, m.issuers.get(x)) {
+                (Some(v), Some(s)) => {
+                    let g = as_set(v.iter(), "get_trusted_issuer_claim_topics")?;
+                    ensure!(g == *s, "issuer-topics", "get_trusted_issuer_claim_topics({}) = {:?}, model {:?}", x, g, s);
+                }
+                (None, None) => {}
+                (Some(_), None) => ensure!(false, "issuer-topics", "get_trusted_issuer_claim_topics({}) answered although the issuer is not trusted", x),
+                (None, Some(_)) => ensure!(false, "issuer-topics", "get_trusted_issuer_claim_topics({}) refused although the issuer is trusted", x),
+            }
+            let tr: Option<bool> = getv(e, &i.c, "is_trusted_issuer", (a.clone(),).into_val(e));
+            ensure!(tr == Some(m.issuers.contains_key(x)), "is-trusted", "is_trusted_issuer({}) = {:?}, model {}", x, tr, m.issuers.contains_key(x));
+            n += 2;
+            for t in &probe_t {
+                let h: Option<bool> = getv(e, &i.c, "has_claim_topic", (a.clone(), *t).into_val(e));
+                let want = m.issuers.get(x).map(|s| s.contains(t));
+                ensure!(h == want, "has-claim-topic", "has_claim_topic({}, {}) = {:?} (None = refused), model {:?}", x, t, h, want);
+                n += 1;
+            }
+        }
+        cx.stats.count("getter-comparisons", n);
+        Ok(())
+    }
+}
+
+impl World for Cti {
+    type Op = CtiOp;
+    type Model = CtiModel;
+    type Inst = CtiInst;
+
+    fn name(&self) -> String {
+        self.name.into()
+    }
+    fn seeds(&self) -> usize {
+        self.seeds.len()
+    }
+    fn seed_name(&self, s: usize) -> String {
+        format!("{:?}", self.seeds[s])
+    }
+
+    fn fresh(&self, seed: usize) -> (CtiInst, CtiModel) {
+        let e = envx::mk_env(START);
+        let c = e.register(wrap::CtiWrap, ());
+        let mut book = Book::new();
+        for x in 0..4u16 {
+            book.gen(&e, x);
+        }
+        let mut m = CtiModel::default();
+        match self.seeds[seed] {
+            CtiSeed::Empty => {}
+            CtiSeed::Topics14 => {
+                for t in 100..114u32 {
+                    seed_call(&e, &c, "add_claim_topic", (t,).into_val(&e));
+                    m.topics.insert(t);
+                }
+            }
+            CtiSeed::Issuers49 => {
+                seed_call(&e, &c, "add_claim_topic", (100u32,).into_val(&e));
+                m.topics.insert(100);
+                for x in 100..149u16 {
+                    book.gen(&e, x);
+                    seed_call(&e, &c, "add_trusted_issuer", (book.a(x), SVec::from_slice(&e, &[100u32])).into_val(&e));
+                    m.issuers.insert(x, [100u32].into_iter().collect());
+                }
+            }
+        }
+        for x in &self.probe_issuers {
+            if !book.fwd.contains_key(x) {
+                book.gen(&e, *x);
+            }
+        }
+        (CtiInst { e, c, book }, m)
+    }
+
+    fn ops(&self, _i: &CtiInst, _m: &CtiModel, _d: usize) -> Vec<CtiOp> {
+        let mut v = vec![];
+        for t in &self.topics {
+            v.push(CtiOp::AddTopic(*t));
+        }
+        for x in &self.issuers {
+            for l in &self.lists {
+                v.push(CtiOp::AddIssuer(*x, l.clone()));
+            }
+        }
+        for x in &self.issuers {
+            for l in &self.lists {
+                v.push(CtiOp::Update(*x, l.clone()));
+            }
+        }
+        for x in self.issuers.iter().chain(self.probe_issuers.iter()) {
+            v.push(CtiOp::RemoveIssuer(*x));
+        }
+        for t in self.topics.iter().chain(self.probe_topics.iter()) {
+            v.push(CtiOp::RemoveTopic(*t));
+        }
+        v
+    }
+
+    fn kind(&self, op: &CtiOp) -> String {
+        match op {
+            CtiOp::AddTopic(_) => "cti.add_claim_topic",
+            CtiOp::RemoveTopic(_) => "cti.remove_claim_topic",
+            CtiOp::AddIssuer(..) => "cti.add_trusted_issuer",
+            CtiOp::RemoveIssuer(_) => "cti.remove_trusted_issuer",
+            CtiOp::Update(..) => "cti.update_issuer_claim_topics",
+        }
+        .into()
+    }
+
+    fn apply(&self, i: &mut CtiInst, op: &CtiOp) {
+        self.call(i, op);
+    }
+
+    fn step(&self, i: &mut CtiInst, m: &mut CtiModel, op: &CtiOp, cx: &mut StepCtx<Self>) -> Result<bool, Violation> {
+        let x = self.expect(m, op);
+        let ok = self.call(i, op);
+        check_outcome(ok, &x, op)?;
+        if ok {
+            Self::update(m, op);
+            self.observe(i, m, cx)?;
+        }
+        Ok(ok)
+    }
+
+    fn key(&self, i: &CtiInst) -> [u8; 32] {
+        envx::storage_digest(&i.e, false)
+    }
+    fn model_digest(&self, m: &CtiModel) -> u64 {
+        dig(m)
+    }
+}
+
+fn cti_worlds(tier: Tier) -> Vec<(Cti, usize)> {
+    let th = tier == Tier::Thorough;
+    let lists: Vec<Vec<u32>> = if th {
+        vec![vec![1], vec![2], vec![1, 2], vec![2, 3], vec![3, 2, 1], vec![], vec![1, 1]]
+    } else {
+        vec![vec![1], vec![1, 2], vec![3, 2], vec![], vec![1, 1]]
+    };
+    vec![
+        (
+            Cti {
+                name: "claim-topics-and-issuers",
+                seeds: vec![CtiSeed::Empty],
+                topics: vec![1, 2, 3],
+                issuers: if th { vec![0, 1, 2] } else { vec![0, 1] },
+                lists,
+                probe_topics: vec![],
+                probe_issuers: vec![],
+            },
+            tier.pick(5, 6),
+        ),
+        (
+            Cti {
+                name: "claim-topics-and-issuers-at-limits",
+                seeds: vec![CtiSeed::Topics14, CtiSeed::Issuers49],
+                topics: vec![1, 2],
+                issuers: vec![0, 1],
+                lists: vec![vec![100], vec![1, 100]],
+                probe_topics: vec![100, 113],
+                probe_issuers: vec![100, 148],
+            },
+            tier.pick(3, 4),
+        ),
+    ]
+}
+
+// ==========================================================================================
+// (2) claim-issuer signing keys: relation key x topic x registry
+
+const MAX_KEYS_PER_TOPIC: usize = 50;
+const MAX_REGISTRIES_PER_KEY: usize = 20;
+
+type Triple = (u16, u32, u16); // key, topic, registry
+
+#[derive(Clone, Debug, PartialEq, Eq)]
+enum KeyOp {
+    Allow(u16, u32, u16),
+    Remove(u16, u32, u16),
+    /// allow_key with an empty public key
+    AllowEmpty(u32, u16),
+}
+
+#[derive(Clone, Copy, Debug, PartialEq)]
+enum KeySeed {
+    Empty,
+    /// 49 filler keys 100..148 allowed for (topic 1, registry 0)
+    TopicKeys49,
+    /// key 0 allowed for topic 1 at 19 filler registries 100..118
+    Registries19,
+}
+
+struct Keys {
+    name: &'static str,
+    seeds: Vec<KeySeed>,
+    keys: Vec<u16>,
+    topics: Vec<u32>,
+    regs: Vec<u16>,
+    probe_keys: Vec<u16>,
+    probe_regs: Vec<u16>,
+    with_invalid: bool,
+}
+
+struct KeyInst {
+    e: Env,
+    c: Address,
+    regs: Book,
+}
+
+/// key id -> (public key bytes, scheme); ids 0 and 2 share the public key and differ in scheme
+fn key_of(id: u16) -> (Vec<u8>, u32) {
+    match id {
+        0 => (vec![0xA1; 32], 101),
+        1 => (vec![0xB2; 32], 101),
+        2 => (vec![0xA1; 32], 102),
+        3 => (vec![0xC3; 33], 101),
+        _ => {
+            let mut v = vec![0x77u8; 32];
+            v[0] = (id & 0xff) as u8;
+            v[1] = (id >> 8) as u8;
+            (v, 101)
+        }
+    }
+}
+
+fn key_id(pk: &[u8], scheme: u32) -> Result<u16, Violation> {
+    for id in (0..4u16).chain(100..200u16) {
+        let (p, s) = key_of(id);
+        if p == pk && s == scheme {
+            return Ok(id);
+        }
+    }
+    Err(Violation::new("outside-universe", "a key enumeration contains a key that was never used".into()))
+}
+
+impl Keys {
+    fn call(&self, i: &KeyInst, op: &KeyOp) -> bool {
+        let e = &i.e;
+        let (f, args): (&str, SVec<Val>) = match op {
+            KeyOp::Allow(k, t, r) => {
+                let (pk, s) = key_of(*k);
+                ("allow_key", (Bytes::from_slice(e, &pk), i.regs.a(*r), s, *t).into_val(e))
+            }
+            KeyOp::Remove(k, t, r) => {
+                let (pk, s) = key_of(*k);
+                ("remove_key", (Bytes::from_slice(e, &pk), i.regs.a(*r), s, *t).into_val(e))
+            }
+            KeyOp::AllowEmpty(t, r) => ("allow_key", (Bytes::new(e), i.regs.a(*r), 101u32, *t).into_val(e)),
+        };
+        call_mocked(e, &i.c, f, args).is_ok()
+    }
+
+    fn expect(&self, m: &BTreeSet<Triple>, op: &KeyOp) -> Ex {
+        match op {
+            KeyOp::AllowEmpty(..) => must(false, "invalid-input-refused", "the public key is empty"),
+            KeyOp::Remove(k, t, r) => {
+                if m.contains(&(*k, *t, *r)) {
+                    must(true, "valid-op-accepted", "this (key, topic, registry) authorization exists")
+                } else {
+                    must(false, "absent-removal-refused", "this (key, topic, registry) authorization does not exist")
+                }
+            }
+            KeyOp::Allow(k, t, r) => {
+                if *t == wrap::FORBIDDEN_TOPIC {
+                    return must(false, "invalid-input-refused", "the registry says this issuer may not sign the topic");
+                }
+                if m.contains(&(*k, *t, *r)) {
+                    return must(false, "duplicate-refused", "this exact (key, topic, registry) authorization already exists");
+                }
+                let keys_t: BTreeSet<u16> = m.iter().filter(|x| x.1 == *t).map(|x| x.0).collect();
+                let new_for_topic = !keys_t.contains(k);
+                if new_for_topic && keys_t.len() >= MAX_KEYS_PER_TOPIC {
+                    return must(
+                        false,
+                        "limit-exact",
+                        format!("topic {t} already has {} keys and the documented maximum is {MAX_KEYS_PER_TOPIC}", keys_t.len()),
+                    );
+                }
+                let pairs_k = m.iter().filter(|x| x.0 == *k).count();
+                let regs_k: BTreeSet<u16> = m.iter().filter(|x| x.0 == *k).map(|x| x.2).collect();
+                if pairs_k < MAX_REGISTRIES_PER_KEY {
+                    let at_edge = pairs_k + 1 >= MAX_REGISTRIES_PER_KEY || (new_for_topic && keys_t.len() + 1 >= MAX_KEYS_PER_TOPIC);
+                    must(
+                        true,
+                        if at_edge { "limit-exact" } else { "valid-op-accepted" },
+                        format!(
+                            "the authorization is new, the key has {pairs_k} registry authorizations (documented maximum {MAX_REGISTRIES_PER_KEY}, so one more is admissible) and topic {t} has {} keys (documented maximum {MAX_KEYS_PER_TOPIC})",
+                            keys_t.len()
+                        ),
+                    )
+                } else if !regs_k.contains(r) && regs_k.len() >= MAX_REGISTRIES_PER_KEY {
+                    must(
+                        false,
+                        "limit-exact",
+                        format!("the key already has {} registries and the documented maximum is {MAX_REGISTRIES_PER_KEY}", regs_k.len()),
+                    )
+                } else {
+                    // >= 20 (topic, registry) pairs over fewer than 20 distinct registries: the
+                    // documentation does not say which of the two is counted
+                    open()
+                }
+            }
+        }
+    }
+
+    fn observe(&self, i: &KeyInst, m: &BTreeSet<Triple>, cx: &mut StepCtx<Self>) -> Result<(), Violation> {
+        let e = &i.e;
+        let mut n = 0u64;
+        let mut topics = self.topics.clone();
+        topics.push(wrap::FORBIDDEN_TOPIC);
+        let keys: Vec<u16> = self.keys.iter().chain(self.probe_keys.iter()).copied().collect();
+        let regs: Vec<u16> = self.regs.iter().chain(self.probe_regs.iter()).copied().collect();
+        for t in &topics {
+            let want: BTreeSet<u16> = m.iter().filter(|x| x.1 == *t).map(|x| x.0).collect();
+            let r: Option<SVec<wrap_ci::SigningKey>> = getv(e, &i.c, "get_keys_for_topic", (*t,).into_val(e));
+            n += 1;
+            match r {
+                None => ensure!(want.is_empty(), "keys-for-topic", "get_keys_for_topic({}) refused, model {:?}", t, want),
+                Some(v) => {
+                    let mut ids = vec![];
+                    for sk in v.iter() {
+                        let pk: Vec<u8> = sk.public_key.iter().collect();
+                        ids.push(key_id(&pk, sk.scheme)?);
+                    }
+                    let got = as_set(ids, "get_keys_for_topic")?;
+                    ensure!(got == want, "keys-for-topic", "get_keys_for_topic({}) = {:?}, model {:?}", t, got, want);
+                }
+            }
+            for k in &keys {
+                let (pk, s) = key_of(*k);
+                let b: Option<bool> = getv(e, &i.c, "is_key_allowed_for_topic", (Bytes::from_slice(e, &pk), s, *t).into_val(e));
+                n += 1;
+                ensure!(b == Some(want.contains(k)), "key-allowed-for-topic", "is_key_allowed_for_topic(key {}, topic {}) = {:?}, model {}", k, t, b, want.contains(k));
+            }
+        }
+        for k in &keys {
+            let (pk, s) = key_of(*k);
+            let want: BTreeSet<u16> = m.iter().filter(|x| x.0 == *k).map(|x| x.2).collect();
+            let r: Option<SVec<Address>> = getv(e, &i.c, "get_registries", (Bytes::from_slice(e, &pk), s).into_val(e));
+            n += 1;
+            match r {
+                None => ensure!(want.is_empty(), "registries-of-key", "get_registries(key {}) refused, model {:?}", k, want),
+                Some(v) => {
+                    // one entry per (topic, registry) authorization: compared as a plain set
+                    let got: BTreeSet<u16> = i.regs.ids(&v, "get_registries")?.into_iter().collect();
+                    ensure!(got == want, "registries-of-key", "get_registries(key {}) = {:?}, model {:?}", k, got, want);
+                }
+            }
+            for r in &regs {
+                let b: Option<bool> = getv(e, &i.c, "is_key_allowed_for_registry", (Bytes::from_slice(e, &pk), s, i.regs.a(*r)).into_val(e));
+                n += 1;
+                ensure!(b == Some(want.contains(r)), "key-allowed-for-registry", "is_key_allowed_for_registry(key {}, registry {}) = {:?}, model {}", k, r, b, want.contains(r));
+            }
+        }
+        cx.stats.count("getter-comparisons", n);
+        Ok(())
+    }
+}
+
+use stellar_tokens::rwa::claim_issuer as wrap_ci;
+
+impl World for Keys {
+    type Op = KeyOp;
+    type Model = BTreeSet<Triple>;
+    type Inst = KeyInst;
+
+    fn name(&self) -> String {
+        self.name.into()
+    }
+    fn seeds(&self) -> usize {
+        self.seeds.len()
+    }
+    fn seed_name(&self, s: usize) -> String {
+        format!("{:?}", self.seeds[s])
+    }
+
+    fn fresh(&self, seed: usize) -> (KeyInst, BTreeSet<Triple>) {
+        let e = envx::mk_env(START);
+        let c = e.register(wrap::KeyWrap, ());
+        let mut regs = Book::new();
+        let mut ids: Vec<u16> = self.regs.iter().chain(self.probe_regs.iter()).copied().collect();
+        if self.seeds[seed] == KeySeed::Registries19 {
+            ids.extend(100..119u16);
+        }
+        ids.sort();
+        ids.dedup();
+        for r in ids {
+            regs.fwd.insert(r, e.register(wrap::RegStub, ()));
+        }
+        let i = KeyInst { e, c, regs };
+        let mut m = BTreeSet::new();
+        match self.seeds[seed] {
+            KeySeed::Empty => {}
+            KeySeed::TopicKeys49 => {
+                for k in 100..149u16 {
+                    assert!(self.call(&i, &KeyOp::Allow(k, 1, 0)), "seed construction: allow_key failed");
+                    m.insert((k, 1, 0));
+                }
+            }
+            KeySeed::Registries19 => {
+                for r in 100..119u16 {
+                    assert!(self.call(&i, &KeyOp::Allow(0, 1, r)), "seed construction: allow_key failed");
+                    m.insert((0, 1, r));
+                }
+            }
+        }
+        (i, m)
+    }
+
+    fn ops(&self, _i: &KeyInst, _m: &BTreeSet<Triple>, _d: usize) -> Vec<KeyOp> {
+        let mut v = vec![];
+        for k in &self.keys {
+            for t in &self.topics {
+                for r in &self.regs {
+                    v.push(KeyOp::Allow(*k, *t, *r));
+                }
+            }
+        }
+        for k in self.keys.iter().chain(self.probe_keys.iter()) {
+            for t in &self.topics {
+                for r in self.regs.iter().chain(self.probe_regs.iter()) {
+                    v.push(KeyOp::Remove(*k, *t, *r));
+                }
+            }
+        }
+        if self.with_invalid {
+            v.push(KeyOp::Allow(self.keys[0], wrap::FORBIDDEN_TOPIC, self.regs[0]));
+            v.push(KeyOp::AllowEmpty(self.topics[0], self.regs[0]));
+        }
+        v
+    }
+
+    fn kind(&self, op: &KeyOp) -> String {
+        match op {
+            KeyOp::Allow(..) | KeyOp::AllowEmpty(..) => "keys.allow_key",
+            KeyOp::Remove(..) => "keys.remove_key",
+        }
+        .into()
+    }
+
+    fn apply(&self, i: &mut KeyInst, op: &KeyOp) {
+        self.call(i, op);
+    }
+
+    fn step(&self, i: &mut KeyInst, m: &mut BTreeSet<Triple>, op: &KeyOp, cx: &mut StepCtx<Self>) -> Result<bool, Violation> {
+        let x = self.expect(m, op);
+        let ok = self.call(i, op);
+        check_outcome(ok, &x, op)?;
+        if ok {
+            match op {
+                KeyOp::Allow(k, t, r) => {
+                    m.insert((*k, *t, *r));
+                }
+                KeyOp::Remove(k, t, r) => {
+                    m.remove(&(*k, *t, *r));
+                }
+                KeyOp::AllowEmpty(..) => {}
+            }
+            self.observe(i, m, cx)?;
+        } else if x.ok == Some(false) {
+            cx.stats.count(&format!("refused.{}", x.oracle), 1);
+        }
+        Ok(ok)
+    }
+
+    fn key(&self, i: &KeyInst) -> [u8; 32] {
+        envx::storage_digest(&i.e, false)
+    }
+    fn model_digest(&self, m: &BTreeSet<Triple>) -> u64 {
+        dig(m)
+    }
+}
+
+fn key_worlds(tier: Tier) -> Vec<(Keys, usize)> {
+    let th = tier == Tier::Thorough;
+    vec![
+        (
+            Keys {
+                name: "claim-issuer-keys",
+                seeds: vec![KeySeed::Empty],
+                keys: if th { vec![0, 1, 2] } else { vec![0, 2] },
+                topics: vec![1, 2],
+                regs: vec![0, 1],
+                probe_keys: vec![],
+                probe_regs: vec![],
+                with_invalid: true,
+            },
+            tier.pick(5, 6),
+        ),
+        (
+            Keys {
+                name: "claim-issuer-keys-at-limits",
+                seeds: vec![KeySeed::TopicKeys49, KeySeed::Registries19],
+                keys: vec![0, 1],
+                topics: vec![1, 2],
+                regs: vec![0, 1],
+                probe_keys: vec![100, 148],
+                probe_regs: vec![100, 118],
+                with_invalid: false,
+            },
+            tier.pick(3, 4),
+        ),
+    ]
+}
+
+// ==========================================================================================
+
+pub fn run(tier: Tier, r: &mut Runner) {
+    let wall = tier.pick(20, 240);
+    for (w, d) in cti_worlds(tier) {
+        r.world(&w, &Bounds::new(d, wall));
+    }
+    for (w, d) in key_worlds(tier) {
+        r.world(&w, &Bounds::new(d, wall));
+    }
+    if let Some(rep) = r.report() {
+        let both = [
+            "cti.add_claim_topic",
+            "cti.remove_claim_topic",
+            "cti.add_trusted_issuer",
+            "cti.remove_trusted_issuer",
+            "cti.update_issuer_claim_topics",
+            "keys.allow_key",
+            "keys.remove_key",
+        ];
+        rep.require(&both, &both);
+    }
+}
+
+#[allow(dead_code)]
+fn _unused(_: Bytes, _: BytesN<32>, _: SString, e: &Env) {
+    e.ledger().sequence();
+}
